@@ -262,7 +262,30 @@ pub struct BlockFees {
 	#[serde(with = "secp_ser::string_or_u64")]
 	pub height: u64,
 	/// key id
+	#[serde(default, deserialize_with = "opt_key_id_from_hex")]
 	pub key_id: Option<Identifier>,
+}
+
+/// `Identifier`'s own deserializer panics on a string that is not hex, and this
+/// one arrives from a miner over the foreign API: check the characters first
+fn opt_key_id_from_hex<'de, D>(deserializer: D) -> Result<Option<Identifier>, D::Error>
+where
+	D: serde::Deserializer<'de>,
+{
+	use serde::de::Error;
+	use serde::Deserialize;
+	let s: Option<String> = Option::deserialize(deserializer)?;
+	match s {
+		None => Ok(None),
+		Some(s) => {
+			if s.len() % 2 != 0 || !s.chars().all(|c| c.is_ascii_hexdigit()) {
+				return Err(D::Error::custom("key_id is not a hex string"));
+			}
+			Identifier::from_hex(&s)
+				.map(Some)
+				.map_err(|e| D::Error::custom(format!("invalid key_id: {}", e)))
+		}
+	}
 }
 
 impl BlockFees {
